@@ -35,7 +35,7 @@ import tempfile
 from typing import Any, Dict, List, Optional, Tuple
 
 from vf.common import chash, short
-from vf.gen.pdfw import Doc, N, Name, Raw, Ref, Stream, font_widths, page_doc
+from vf.gen.pdfw import Doc, N, Name, Raw, Ref, Stream, font_widths, page_doc, ser_name
 from vf.ref import bmp as refbmp
 from vf.ref import c18enc as enc
 from vf.ref import filters as reffilters  # png_encode / tiff2_encode (written from the PNG and TIFF specifications)
@@ -51,7 +51,10 @@ RULE = (
     "10-15 with every row filter type 0-4 uniformly or mixed per row, DecodeParms as dictionary or array with nulls) "
     "x container (image XObject with ColorSpace as name or one-element array, "
     "Filter as name or array, Width/Height/BitsPerComponent/ColorSpace direct or as indirect references; inline image "
-    "with abbreviated/full/mixed keys and names, optionally followed by an image XObject). Sweep shards enumerate every "
+    "with abbreviated/full/mixed keys and names, optionally followed by an image XObject; page /Contents a single "
+    "stream or an array of 2-4 streams split between operators with the inline image in a later stream after 0-9000 "
+    "bytes of earlier streams). A 'names' family exports images whose resource names differ only in / \\ : vs _ "
+    "(both orders, same or different pages, with pre-existing files). Sweep shards enumerate every "
     "width 1..67 for each kind deterministically (seed independent), random shards draw the rest. XObject documents: "
     "1-3 pages, 1-4 draws per page from a pool of 1-5 images under names that collide across pages, optional "
     "pre-existing files named like the exports. Inline documents: 1-3 inline images interleaved with text operators, "
@@ -99,6 +102,8 @@ def minimums(tier: str) -> Dict[str, int]:
         "inline_data_containing_EI_not_followed_by_ws": 900, "inline_tail_EOL": 400, "inline_tail_E": 300,
         "preexisting_files_checked": 5000, "name_collisions_resolved": 8000, "output_src_checked": 12000,
         "docs_tagged": 40,
+        "inline_in_later_content_stream": 2500, "inline_after_more_than_4096_bytes_of_earlier_streams": 400,
+        "name_collisions_after_sanitising": 500, "docs_names": 250,
         "predictor_png_xobj": 1500, "predictor_tiff2_xobj": 300, "predictor_png_inline": 150, "predictor_tiff2_inline": 40,
         "predictor_png_left_neighbour_rows_colors_ne_columns": 800,
     }
@@ -106,7 +111,7 @@ def minimums(tier: str) -> Dict[str, int]:
     m.update({
         "seen:xobj_widths": 67, "seen:xobj_heights": 40, "seen:bmp_kind_wmod": 3 * 8, "seen:chains": 60,
         "seen:inline_after_EI": 8, "seen:inline_sep": 4, "seen:inline_id_ws": 6, "seen:inline_keystyle": 3,
-        "seen:output_types": 3, "seen:inline_tail": 20, "seen:png_row_filters": 15, "seen:predictor_kinds": 5,
+        "seen:output_types": 3, "seen:inline_tail": 20, "seen:png_row_filters": 15, "seen:predictor_kinds": 5, "seen:inline_stream_index": 3,
     })
     return m
 
@@ -128,6 +133,8 @@ def shards(tier: str, seed: int) -> List[Dict[str, Any]]:
     for k in range(16 if q else 64):
         out.append({"fam": "inline", "sub": 100 + k, "n": 330 if q else 1700})
     out.append({"fam": "tagged", "sub": 900, "n": 40 if q else 400})
+    for k in range(2 if q else 8):
+        out.append({"fam": "names", "sub": 950 + k, "n": 150 if q else 600})
     # interleave the families (the evidence samples come from the first shards; similar load at any time)
     fams: Dict[str, List[Dict[str, Any]]] = {}
     for s in out:
@@ -273,6 +280,9 @@ def predictor_parms(img: Dict[str, Any]) -> Dict[str, Any]:
 # XObject documents
 # --------------------------------------------------------------------------
 NAMES = ["Im0", "Im1", "Im2", "X", "img"]
+# pairs of legal resource names that an exporter which replaces path characters maps to one file name
+NAME_PAIRS = [("Im_1", "Im:1"), ("a_b", "a/b"), ("a_b", "a\\b"), ("a:b", "a/b"), ("x/y", "x\\y"), ("p_q_r", "p/q:r"),
+              ("Im:1", "Im/1")]
 
 
 def xobj_stream(img: Dict[str, Any], rng: random.Random, doc: Doc) -> Stream:
@@ -338,7 +348,8 @@ def gen_image(rng: random.Random, kind: Optional[str] = None, w: Optional[int] =
             "chain": ch, "pattern": pattern, "pred": pick_predictor(rng, kind, h, ch)}
 
 
-def build_xobj_case(rng: random.Random, images: List[Dict[str, Any]], npages: int, fam: str = "xobj") -> Dict[str, Any]:
+def build_xobj_case(rng: random.Random, images: List[Dict[str, Any]], npages: int, fam: str = "xobj",
+                    pool: Optional[List[str]] = None) -> Dict[str, Any]:
     doc = Doc()
     refs = [doc.add(xobj_stream(im, rng, doc)) for im in images]
     pages = []
@@ -349,7 +360,7 @@ def build_xobj_case(rng: random.Random, images: List[Dict[str, Any]], npages: in
         nd = rng.randint(1, 4)
         if p == npages - 1:
             nd = max(nd, len(cover))
-        nd = min(nd, len(NAMES) + 2)
+        nd = min(nd, len(pool or NAMES) + 2)
         names: Dict[str, int] = {}
         ops = []
         used_boxes = set()
@@ -359,8 +370,8 @@ def build_xobj_case(rng: random.Random, images: List[Dict[str, Any]], npages: in
             else:
                 idx = rng.randrange(len(images))
             # a name already used on this page keeps its image (a resource name means one object)
-            cand = [n for n in NAMES if n not in names or names[n] == idx]
-            name = rng.choice(cand[:3]) if cand else None
+            cand = [n for n in (pool or NAMES) if n not in names or names[n] == idx]
+            name = (rng.choice(cand[:3]) if pool is None else cand[0]) if cand else None
             if name is None:
                 continue
             names[name] = idx
@@ -370,7 +381,7 @@ def build_xobj_case(rng: random.Random, images: List[Dict[str, Any]], npages: in
                 if (x, y, dw, dh) not in used_boxes:
                     used_boxes.add((x, y, dw, dh))
                     break
-            ops.append(b"q %d 0 0 %d %d %d cm /%s Do Q" % (dw, dh, x, y, name.encode()))
+            ops.append(b"q %d 0 0 %d %d %d cm %s Do Q" % (dw, dh, x, y, ser_name(name.encode("latin-1"))))
             im = images[idx]
             draws.append({"page": p, "name": name, "kind": im["kind"], "cskind": im.get("cskind", im["kind"]),
                           "w": im["w"], "h": im["h"], "data": im["data"], "bbox": [x, y, x + dw, y + dh],
@@ -386,10 +397,11 @@ def build_xobj_case(rng: random.Random, images: List[Dict[str, Any]], npages: in
         for dr in draws:
             ext = ".jpg" if dr["kind"] == "dct" else ".bmp"
             r = rng.random()
+            disk = re.sub(r"[/\\:]", "_", dr["name"])  # a name that is a legal file name on every system
             if r < 0.5:
-                pre[dr["name"] + ext] = b"pre-existing " + rng.randbytes(8)
+                pre[disk + ext] = b"pre-existing " + rng.randbytes(8)
             if r < 0.25:
-                pre[dr["name"] + ".0" + ext] = b"pre-existing too " + rng.randbytes(8)
+                pre[disk + ".0" + ext] = b"pre-existing too " + rng.randbytes(8)
     otype = rng.choice(["text", "text", "xml", "html"])
     return {"fam": fam, "pdf": pdf, "plain": None, "draws": draws, "chars": [], "pre": pre, "otype": otype,
             "lap": rng.random() < 0.5, "export": True, "tag": None}
@@ -473,8 +485,11 @@ def expected_chars(page: int, x: int, y: int, s: bytes, ctm: Tuple[int, int, int
 ALNUM = b"ABCDEFGHIJKLMNOPQRSTUVWXYZabcdefghijklmnopqrstuvwxyz0123456789"
 
 
+PAD_OPS = [b"0.5 g", b"q Q", b"1 0 0 1 0 0 cm", b"0 0 m 3 4 l S", b"% a comment", b"1 w"]
+
+
 def build_inline_case(rng: random.Random, items: List[Dict[str, Any]], fam: str = "inline", tag: Optional[str] = None,
-                      export: bool = True) -> Dict[str, Any]:
+                      export: bool = True, nstreams: int = 1, pad: int = 0) -> Dict[str, Any]:
     """items: [{"img":..., "keystyle", "id_ws", "sep", "after", "wrap": "q"|"qtext"|"bare"}] drawn on one page in order,
     each followed by a text operator (an item with after == b"" must be last and is preceded by its text)."""
     ops: List[bytes] = []      # with images
@@ -548,11 +563,41 @@ def build_inline_case(rng: random.Random, items: List[Dict[str, Any]], fam: str 
                 out += b"\n"
         return bytes(out)
 
+    # /Contents as an array (ISO 32000-1 7.7.3.3, 7.8.2): the streams are split between operators, every stream ends
+    # in white space, and the first inline image is never in the first stream; `pad` bytes of operators that paint
+    # nothing (also more than one 4096-byte buffer) come first
+    content: Any = join(ops)
+    if nstreams > 1:
+        first_bi = next(k for k, p_ in enumerate(ops) if p_.startswith(b"BI "))
+        padding: List[bytes] = []
+        size = 0
+        while size < pad:
+            padding.append(rng.choice(PAD_OPS))
+            size += len(padding[-1]) + 1
+        parts = [b"q"] + padding + [b"Q"] + ops
+        first_bi += len(padding) + 2
+        cuts = {rng.randint(1, first_bi)}
+        while len(cuts) < min(nstreams - 1, len(parts) - 1):
+            cuts.add(rng.randint(1, len(parts) - 1))
+        bounds = [0] + sorted(cuts) + [len(parts)]
+        content = []
+        for a, b in zip(bounds, bounds[1:]):
+            st = join(parts[a:b])
+            if b < len(parts) and st[-1:] not in (b" ", b"\n", b"\r", b"\t", b"\x0c", b"\x00"):
+                st += b"\n"
+            content.append(st)
+        stream_of = {}
+        for k in range(len(parts)):
+            stream_of[k] = next(i for i, (a, b) in enumerate(zip(bounds, bounds[1:])) if a <= k < b)
+        bi_parts = [k for k, p_ in enumerate(parts) if p_.startswith(b"BI ")]
+        for dr, k in zip([d for d in draws if d["inline"]], bi_parts):
+            dr["feat"]["stream"] = stream_of[k]
+            dr["feat"]["before"] = sum(len(c) for c in content[:stream_of[k]])
     res: Dict[str, Any] = {"Font": {"F1": font_widths()}}
     doc = Doc()
     if xobjs:
         res = dict(res, XObject={n: doc.add(xobj_stream(im, rng, doc)) for n, im in xobjs})
-    pdf = page_doc([{"content": join(ops), "resources": res}], doc=doc).build()
+    pdf = page_doc([{"content": content, "resources": res}], doc=doc).build()
     res = {"Font": {"F1": font_widths()}}
     pdf_plain = page_doc([{"content": join(plain), "resources": res}]).build()
     return {"fam": fam, "pdf": pdf, "plain": pdf_plain, "draws": draws, "chars": chars, "pre": {},
@@ -810,11 +855,15 @@ def check_doc(case: Dict[str, Any]) -> Tuple[List[Tuple[str, str]], Dict[str, in
             if fn in created or fn in case["pre"]:
                 fails.append(("export_name_not_distinct", "file name %r used twice" % fn))
             created[fn] = ci
-            stem_ok = re.match(r"^%s(\.\d+)?\.[a-z0-9]+$" % re.escape(c["name"]), fn) is not None
-            if not stem_ok:
+            # the image name, where a character that cannot be part of a file name (/ \ :) may be replaced
+            stem = "".join("[^/\\\\]" if ch in "/\\:" else re.escape(ch) for ch in c["name"])
+            stem_ok = re.match(r"^%s(\.\d+)?\.[a-z0-9]+$" % stem, fn) is not None
+            if not stem_ok or "/" in fn or "\\" in fn:
                 fails.append(("export_name_form", "image %r exported as %r" % (c["name"], fn)))
-            if re.match(r"^%s\.\d+\.[a-z0-9]+$" % re.escape(c["name"]), fn):
+            if re.match(r"^%s\.\d+\.[a-z0-9]+$" % stem, fn):
                 count("name_collisions_resolved")
+                if any(o["name"] != c["name"] and o["ret"] and o["ret"].split(".")[0] == fn.split(".")[0] for o in calls):
+                    count("name_collisions_after_sanitising")  # another image's name maps to the same file name
             if final.get(fn) != c["content"].get(fn):
                 fails.append(("export_overwritten_later", "file %r changed after the call that created it" % fn))
         extra = set(final) - set(case["pre"]) - set(created)
@@ -1003,6 +1052,11 @@ def _record(case: Dict[str, Any], rec, extra_see: Optional[Dict[str, Any]] = Non
             rec.see("inline_sep", repr(dr["sep"]))
             rec.see("inline_id_ws", repr(f["id_ws"]))
             rec.see("inline_keystyle", f["keystyle"])
+            if f.get("stream"):
+                rec.count("inline_in_later_content_stream")
+                rec.see("inline_stream_index", f["stream"])
+                if f["before"] > 4096:
+                    rec.count("inline_after_more_than_4096_bytes_of_earlier_streams")
             rec.count("inline_keystyle_" + f["keystyle"])
             if dr["rawlen"] > 4096:
                 rec.count("inline_data_over_4096")
@@ -1077,7 +1131,22 @@ def run_shard(spec: Dict[str, Any], rec) -> None:
             items = [gen_inline_item(rng, big=(k % 6 == 0 and i == 0)) for i in range(n)]
             if rng.random() < 0.15:
                 items[-1]["after"] = b""
-            _record(build_inline_case(rng, items), rec)
+            ns = rng.choice([1, 1, 1, 2, 3, 4])
+            _record(build_inline_case(rng, items, nstreams=ns, pad=rng.choice([0, 0, 30, 700, 4090, 4100, 5000, 9000])), rec)
+    elif fam == "names":
+        # resource names that differ only in characters a file name cannot keep (/ \ :): both images must get
+        # their own file, in either order of appearance
+        rng = random.Random("C18/%d/%d" % (spec["seed"], spec["sub"]))
+        for k in range(spec["n"]):
+            a, b = NAME_PAIRS[k % len(NAME_PAIRS)]
+            pool = [a, b] if (k // len(NAME_PAIRS)) % 2 == 0 else [b, a]
+            if k % 5 == 0:
+                pool.insert(rng.randrange(3), re.sub(r"[/\\:_]", rng.choice(":/"), a))
+                pool = list(dict.fromkeys(pool))
+            dct = rng.random() < 0.2
+            images = [gen_image(rng, "dct" if dct else rng.choice(list(KINDS)), rng.randint(1, 30), rng.randint(1, 12))
+                      for _ in pool]
+            _record(build_xobj_case(rng, images, rng.randint(1, 2), "names", pool=pool), rec)
     elif fam == "tagged":
         rng = random.Random("C18/%d/%d" % (spec["seed"], spec["sub"]))
         for _ in range(spec["n"]):
@@ -1124,7 +1193,8 @@ def _run_inline_enum(spec: Dict[str, Any], rec) -> None:
             items = [item]
             if after != b"" and k % 3 == 0:
                 items.append(gen_inline_item(rng))
-            _record(build_inline_case(rng, items, "inline_enum"), rec)
+            ns = [1, 1, 2, 1, 3, 1, 4][k % 7]
+            _record(build_inline_case(rng, items, "inline_enum", nstreams=ns, pad=[0, 4085, 17, 4096, 8200][k % 5]), rec)
 
 
 def gen_tagged_case(rng: random.Random) -> Dict[str, Any]:
